@@ -501,19 +501,19 @@ def cases(ctx):
     i = 0
     base = ctx.seed * 1000003
     for sc in SCEN:
-        for rep in range(3 if quick else 40):
+        for rep in range(8 if quick else 40):
             if ctx.mine(i):
                 yield "history", {"hseed": base + i, "scen": sc["name"], "batch": 1 if rep == 0 else None}
             i += 1
-    for rep in range(16 if quick else 120):
+    for rep in range(48 if quick else 120):
         if ctx.mine(i):
             yield "history", {"hseed": base + i, "window": True, "case_compare": False}
         i += 1
-    for rep in range(240 if quick else 8000):
+    for rep in range(1200 if quick else 8000):
         if ctx.mine(i):
             yield "history", {"hseed": base + i}
         i += 1
-    for rep in range(16 if quick else 300):
+    for rep in range(48 if quick else 300):
         if ctx.mine(i):
             yield "runloop", {"hseed": base + i}
         i += 1
